@@ -178,6 +178,32 @@ def rule_lockstep(ctx):
             r.fail(Finding("R-LOCKSTEP", f"R-LOCKSTEP|datapath.DataPath.get_data|parent-path-index", f"{f.file}:{sb.lineno}",
                            f"`{norm(sb)}`: the parent path is looked up by an index that is not the node's position in the previous frontier ({why}); "
                            f"after a skipped node every later sibling is reported with the wrong path prefix", []))
+    # (1b) a parent path taken from an iterator must be consumed for every node, i.e. before any `continue`
+    node_loops = [p for p in ast.walk(part_loop) if isinstance(p, ast.For) and p is not part_loop and any(x is fcall for x in ast.walk(p))]
+    iters = {stt.targets[0].id for stt in ast.walk(part_loop) if isinstance(stt, ast.Assign) and isinstance(stt.targets[0], ast.Name) and isinstance(stt.value, ast.Call) and norm(stt.value.func) == "iter" and P in norm(stt.value)}
+    for nl in node_loops[:1]:
+        for n in ast.walk(nl):
+            if isinstance(n, ast.Call) and norm(n.func) == "next" and n.args and isinstance(n.args[0], ast.Name) and n.args[0].id in iters:
+                inst = {"site": norm(n)}
+                r.instances.append(inst)
+                stn = stmt_of(n)
+                top = next((b for b in nl.body if b is stn or any(x is stn for x in ast.walk(b))), None)
+                idx_n = nl.body.index(top) if top in nl.body else 10 ** 6
+                skip_before = [b for b in nl.body[:idx_n] if any(isinstance(x, ast.Continue) for x in ast.walk(b))]
+                if skip_before or (top is not stn and isinstance(top, (ast.If, ast.Try))):
+                    r.fail(Finding("R-LOCKSTEP", "R-LOCKSTEP|datapath.DataPath.get_data|parent-path-index", f"{f.file}:{n.lineno}",
+                                   f"`{norm(n)}` takes the next parent path only for nodes that were not skipped: after a skipped node every later sibling is paired with the previous sibling's path", []))
+                else:
+                    r.ok()
+        # every node of the previous frontier is visited: no early exit from the node loop
+        exits = [x for x in ast.walk(nl) if isinstance(x, (ast.Break, ast.Return))]
+        inst = {"node loop": head(nl), "early exits": [head(x) for x in exits]}
+        r.instances.append(inst)
+        if exits:
+            r.fail(Finding("R-LOCKSTEP", "R-LOCKSTEP|datapath.DataPath.get_data|node-loop-exit", f"{f.file}:{exits[0].lineno}",
+                           f"`{head(exits[0])}` leaves the loop over the nodes of the previous frontier early: later nodes are never filtered, so matches (and the count `single` relies on) are lost", []))
+        else:
+            r.ok()
     # (2) same filtered object feeds both frontiers, in the same node iteration
     dsrc = {u[3] for u in upd if u[0] == "data"}
     ksrc = {u[3] for u in upd if u[0] == "keys"}
@@ -1222,6 +1248,38 @@ def rule_thread(ctx):
             else:
                 r.fail(Finding("R-THREAD", f"R-THREAD|{f.qualname}|{norm(n)[:60]}", f"{f.file}:{n.lineno}",
                                f"`source_data={norm(kw.value)}`: the validated document must be forwarded unchanged from the rule test to argument resolution", []))
+    # a call whose callee takes `source_data`, made from a function that has it, must pass it on
+    takes = {}
+    for g in prog.all_functions():
+        if any(p.name == "source_data" for p in g.params) and g.module.name in ("conditions",):
+            takes.setdefault(g.name, []).append(g)
+    for f in prog.all_functions():
+        if f.module.name != "conditions" or not any(p.name == "source_data" for p in f.params):
+            continue
+        for n in ast.walk(f.node):
+            if not (isinstance(n, ast.Call) and isinstance(n.func, ast.Attribute)):
+                continue
+            cname = n.func.attr if n.func.attr != "callable" else "__call__"
+            if isinstance(n.func, ast.Attribute) and n.func.attr == "callable" and isinstance(n.func.value, ast.Name) and n.func.value.id == "self":
+                cname = "__call__"
+            cands = takes.get(cname, [])
+            if not cands or any(k.arg == "source_data" for k in n.keywords):
+                continue
+            # positional?
+            passed = False
+            for g in cands:
+                names = [p.name for p in g.params]
+                pos = names.index("source_data") - (1 if g.cls is not None and g.kind == "method" else 0)
+                if len(n.args) > pos and norm(n.args[pos]) == "source_data":
+                    passed = True
+            inst = {"site": f"{f.qualname}: {norm(n)[:90]}", "passes": "positional" if passed else "NOT PASSED"}
+            r.instances.append(inst)
+            n_sites += 1
+            if passed:
+                r.ok()
+            else:
+                r.fail(Finding("R-THREAD", f"R-THREAD|{f.qualname}|{norm(n)[:60]}|dropped", f"{f.file}:{n.lineno}",
+                               f"`{norm(n)[:100]}` does not pass `source_data` on although {cands[0].qualname} takes it: path-valued arguments below this call are no longer resolved against the validated document", []))
     # positional forwarding in the resolver
     pc = prog.cls("conditions.PreparedConditionCallable")
     call = pc.lookup_method("__call__")
@@ -1322,4 +1380,164 @@ def rule_depth(ctx):
     else:
         r.fail(Finding("R-ESCAPE-KEY", f"R-ESCAPE-KEY|{pp.qualname}", f"{pp.file}:{pp.node.lineno}",
                        "the '\\\\path' escape branch must return the un-escaped literal mapping before the single-key check can reject it", []))
+    return r
+
+
+# ------------------------------------------------------------------------------------------
+# additions after the second round of seeded changes
+# ------------------------------------------------------------------------------------------
+def rule_reasons(ctx):
+    """Every failing item gets at least one textual reason: for an `xor` both operands may
+    hold, so the operator row is then the only source of a reason and must not be skipped."""
+    prog = ctx.prog
+    r = RuleResult("R-REASONS", floor=1)
+    f = prog.func("data.FilteredDataLike.get_failure_by_index")
+    skips = [n for n in ast.walk(f.node) if isinstance(n, ast.If) and any(isinstance(x, ast.Continue) for x in n.body)
+             and isinstance(n.test, ast.Compare) and isinstance(n.test.ops[0], ast.In) and isinstance(n.test.comparators[0], (ast.Tuple, ast.List, ast.Set))]
+    for sk in skips:
+        names = [e.value for e in sk.test.comparators[0].elts if isinstance(e, ast.Constant)]
+        inst = {"skipped truth-table rows": names}
+        r.instances.append(inst)
+        if "xor" in names:
+            r.fail(Finding("R-REASONS", "R-REASONS|data.FilteredDataLike.get_failure_by_index", f"{f.file}:{sk.lineno}",
+                           f"truth-table rows {names} are skipped when collecting failure reasons; an item failing an xor because both operands hold has no other reason row, "
+                           f"so its failure would carry no reason", []))
+        else:
+            r.ok()
+    if not skips:
+        r.instances.append({"skipped truth-table rows": "none recognised"})
+        r.undecided.append({"what": "row-skipping test not in the recognised form"})
+    return r
+
+
+def rule_names(ctx):
+    """Every comparison function a DSL constructor binds is a plain `def` of that name in
+    callables.py: serialisation, equality and path simplification identify it by __name__."""
+    prog = ctx.prog
+    r = RuleResult("R-NAMES", floor=30)
+    cond = prog.module("conditions")
+    mod = prog.module("callables")
+    for c in cond.classes.values():
+        for f in c.methods.values():
+            if f.kind != "classmethod":
+                continue
+            for n in ast.walk(f.node):
+                if isinstance(n, ast.Call) and isinstance(n.func, ast.Name) and f.params and n.func.id == f.params[0].name and n.args and isinstance(n.args[0], ast.Attribute) and norm(n.args[0].value) == "call_funcs":
+                    name = n.args[0].attr
+                    inst = {"constructor": f.qualname, "binds": f"callables.{name}"}
+                    r.instances.append(inst)
+                    fn = mod.functions.get(name)
+                    if fn is not None:
+                        deco = [norm(d) for d in fn.node.decorator_list]
+                        if deco:
+                            r.fail(Finding("R-NAMES", f"R-NAMES|callables.{name}|decorated", f"{fn.file}:{fn.node.lineno}",
+                                           f"callables.{name} is decorated ({deco}); its __name__ must stay `{name}`", []))
+                        else:
+                            r.ok()
+                    elif name in mod.constants:
+                        r.fail(Finding("R-NAMES", f"R-NAMES|callables.{name}|not-a-def", f"{mod.relpath}:{getattr(mod.constants[name], 'lineno', 1)}",
+                                       f"callables.{name} is bound by assignment (`{name} = {norm(mod.constants[name])}`), not defined with `def {name}`: its __name__ is whatever the right-hand side produces "
+                                       f"(functools.wraps copies the wrapped function's), while serialisation, equality and path simplification identify the comparison by __name__", []))
+                    else:
+                        r.fail(Finding("R-NAMES", f"R-NAMES|callables.{name}|missing", f"{f.file}:{n.lineno}", f"{f.qualname} binds callables.{name}, which does not exist", []))
+    return r
+
+
+def rule_derived(ctx):
+    """A field that __init__ computes from another field must be recomputed wherever that
+    other field is rebound (otherwise the object carries stale derived state)."""
+    prog = ctx.prog
+    r = RuleResult("R-DERIVED", floor=1)
+    for cq in ("schema.Schema", "datapath.DataPath"):
+        c = prog.cls(cq)
+        init = c.methods.get("__init__")
+        if init is None:
+            continue
+        stores = {}
+        for n in ast.walk(init.node):
+            if isinstance(n, ast.Assign) and isinstance(n.targets[0], ast.Attribute) and norm(n.targets[0].value) == "self":
+                stores[n.targets[0].attr] = n.value
+        derived = {}
+        for fld, val in stores.items():
+            deps = {x.attr for x in ast.walk(val) if isinstance(x, ast.Attribute) and norm(x.value) == "self" and x.attr in stores and x.attr != fld}
+            if deps:
+                derived[fld] = deps
+        inst = {"class": cq, "derived fields": {k: sorted(v) for k, v in derived.items()}}
+        r.instances.append(inst)
+        bad = []
+        for m in c.methods.values():
+            if m.name == "__init__":
+                continue
+            rebinds = {n.targets[0].attr for n in ast.walk(m.node) if isinstance(n, ast.Assign) and isinstance(n.targets[0], ast.Attribute) and norm(n.targets[0].value) == "self"}
+            for fld, deps in derived.items():
+                if deps & rebinds and fld not in rebinds:
+                    bad.append((m, fld, sorted(deps & rebinds)))
+        if bad:
+            for m, fld, deps in bad:
+                r.fail(Finding("R-DERIVED", f"R-DERIVED|{m.qualname}|{fld}", f"{m.file}:{m.node.lineno}",
+                               f"{cq}.__init__ computes `{fld}` from {deps}, and {m.qualname} rebinds {deps} without recomputing `{fld}`: the object keeps a stale `{fld}`", []))
+        else:
+            r.ok()
+    return r
+
+
+def rule_eq_const_fields(ctx):
+    """Fields that equality compares but the JSON form / the definition does not carry are only
+    ever assigned constants (so using an object never changes what it is equal to)."""
+    prog = ctx.prog
+    r = RuleResult("R-EQCONST", floor=1)
+    from .eq import compared_fields
+    for cq, carried in (("schema.Schema", {"rules"}), ("rules.Rule", {"path", "condition", "cast"})):
+        c = prog.cls(cq)
+        eq = c.lookup_method("__eq__")
+        comp = compared_fields(prog, c, eq)
+        for fld in sorted(comp - carried):
+            stores = []
+            for g in prog.all_functions():
+                for n in ast.walk(g.node):
+                    if isinstance(n, ast.Assign):
+                        for t in n.targets:
+                            if isinstance(t, ast.Attribute) and t.attr == fld:
+                                recv = norm(t.value)
+                                if (g.cls is c and recv == "self") or recv in ("schema", "self.schema"):
+                                    stores.append((g, n))
+            nonconst = [(g, n) for g, n in stores if not isinstance(n.value, ast.Constant)]
+            inst = {"class": cq, "compared, not part of the definition": fld, "stores": [f"{g.qualname}: {norm(n)}" for g, n in stores]}
+            r.instances.append(inst)
+            if nonconst:
+                g, n = nonconst[0]
+                r.fail(Finding("R-EQCONST", f"R-EQCONST|{cq}|{fld}", f"{g.file}:{n.lineno}",
+                               f"{cq}.__eq__ compares `{fld}`, which is not part of the definition / JSON form, and `{norm(n)}` in {g.qualname} gives it a non-constant value: "
+                               f"after that the object is no longer equal to a rebuilt or round-tripped copy of itself", []))
+            else:
+                r.ok()
+    return r
+
+
+def rule_noclosure(ctx):
+    """Parsers store no per-call function object (nested def / lambda) in what they build:
+    objects compared by identity would make two parses of one spec unequal."""
+    prog = ctx.prog
+    r = RuleResult("R-NOCLOSURE", floor=4)
+    from ..anchors import condition_parser, path_parser, part_parser
+    funcs = [condition_parser(prog), path_parser(prog), part_parser(prog), prog.func("rules.Rule.from_spec"), prog.func("schema.Schema.init_rules"), prog.func("datapath.DataPath.from_part_specs")]
+    for f in funcs:
+        nested = [n for n in ast.walk(f.node) if isinstance(n, (ast.FunctionDef, ast.AsyncFunctionDef)) and n is not f.node]
+        lambdas = [n for n in ast.walk(f.node) if isinstance(n, ast.Lambda) and not (isinstance(getattr(n, "_parent", None), ast.keyword) and n._parent.arg == "key")]
+        inst = {"parser": f.qualname, "nested functions": [n.name for n in nested], "lambdas": len(lambdas)}
+        r.instances.append(inst)
+        esc = []
+        for n in nested:
+            uses = [x for x in ast.walk(f.node) if isinstance(x, ast.Name) and x.id == n.name and isinstance(x.ctx, ast.Load)]
+            # a nested function that is only *called* is a local helper; one that is stored / passed on escapes
+            for u in uses:
+                par = getattr(u, "_parent", None)
+                if not (isinstance(par, ast.Call) and par.func is u):
+                    esc.append(n.name)
+        if esc or lambdas:
+            what = sorted(set(esc)) + (["<lambda>"] if lambdas else [])
+            r.fail(Finding("R-NOCLOSURE", f"R-NOCLOSURE|{f.qualname}", f"{f.file}:{(nested or lambdas)[0].lineno}",
+                           f"{f.qualname} creates a function object per call ({what}) and stores / passes it on: functions compare by identity, so parsing the same spec twice gives unequal objects", []))
+        else:
+            r.ok()
     return r
